@@ -269,6 +269,11 @@ func (ex *Exec) globalConst(pi *PtrInfo, st *State) (Val, bool) {
 	switch v := gi.val.(type) {
 	case *ssa.Const:
 		return ex.constVal(v), true
+	case *ssa.MakeInterface:
+		// an interface holding a value built at init: the dynamic type is known, the payload is stable
+		name := "gval!" + sanitize(full) + "!ref"
+		ex.declare(name, sInt)
+		return Val{T: et, L: []string{num(int64(ex.w.typeID(v.X.Type()))), name}}, true
 	case *ssa.Function:
 		return Val{T: et, L: []string{"1"}, F: &FuncInfo{Fn: v}}, true
 	case *ssa.Alloc:
